@@ -10,6 +10,9 @@
  *   execute      <h> <v>                  nev_execute(h, v, &result)
  *   program_delete <h>                    program_delete(h)
  *   vm_delete    <v>                      vm_delete(v)
+ *   fpraise      <flag>[,<flag>...]       the HOST application's own float arithmetic: feraiseexcept() of
+ *                                         inexact | underflow | overflow | invalid | divbyzero  (no libnev call)
+ *   fpclear                               feclearexcept(FE_ALL_EXCEPT) by the host
  *
  * Handles are small integers (0..63), programs and VMs in separate pools.  Misuse that the API
  * itself cannot survive (executing a program whose compilation failed is fine: nev_execute returns 1;
@@ -45,6 +48,7 @@
 #include <string.h>
 #include <unistd.h>
 #include <fcntl.h>
+#include <fenv.h>
 #include "nev.h"
 #include "module.h"
 #include "bytecode.h"
@@ -462,6 +466,22 @@ int main(int argc, char ** argv)
                 vms[v] = NULL;
                 fprintf(out, "RET -\n");
             }
+        }
+        else if (!strcmp(tok[0], "fpraise") && nt == 2)
+        {
+            int mask = 0;
+            if (strstr(tok[1], "inexact")) mask |= FE_INEXACT;
+            if (strstr(tok[1], "underflow")) mask |= FE_UNDERFLOW;
+            if (strstr(tok[1], "overflow")) mask |= FE_OVERFLOW;
+            if (strstr(tok[1], "invalid")) mask |= FE_INVALID;
+            if (strstr(tok[1], "divbyzero")) mask |= FE_DIVBYZERO;
+            feraiseexcept(mask);
+            fprintf(out, "RET -\n");
+        }
+        else if (!strcmp(tok[0], "fpclear") && nt == 1)
+        {
+            feclearexcept(FE_ALL_EXCEPT);
+            fprintf(out, "RET -\n");
         }
         else fprintf(out, "REFUSED unknown operation\n");
         print_all(named_prog);
